@@ -1236,118 +1236,132 @@ def _inline_new_temps(fn, ref_names, params, stats, key):
     own = fn_scope_locals(fn)
     cand = [n for n in own if n.split('\x01')[0] not in ref_names and n not in params]
     done = 0
-    for v in cand:
-        order = {id(n): i for i, n in enumerate(_preorder(fn))}
-        stores = [n for n in ast.walk(fn) if isinstance(n, ast.Name) and n.id == v and isinstance(n.ctx, (ast.Store, ast.Del))]
-        others = [n for n in ast.walk(fn) if (isinstance(n, ast.arg) and n.arg == v) or (isinstance(n, ast.ExceptHandler) and n.name == v)]
-        if len(stores) != 1 or others:
-            continue
-        found = _find_assign(fn, stores[0])
-        if found is None:
-            continue
-        block, idx, st = found
-        if isinstance(st.value, ast.Lambda):
-            # a NEW local lambda that is only ever called: beta-reduce its calls (the lambda reads its free variables when called, which is
-            # where the substituted body now stands)
-            lam = st.value
-            a = lam.args
-            only_called = not (a.vararg or a.kwarg or a.kwonlyargs or a.defaults or a.posonlyargs)
-            params_ = [x.arg for x in a.args]
-            pm_ = {}
-            for n in ast.walk(fn):
-                for c in ast.iter_child_nodes(n):
-                    pm_[id(c)] = n
-            loads_ = [n for n in ast.walk(fn) if isinstance(n, ast.Name) and n.id == v and isinstance(n.ctx, ast.Load)]
-            calls_ = [pm_.get(id(n)) for n in loads_]
-            if not loads_ or any(not (isinstance(c, ast.Call) and c.func is n and len(c.args) == len(params_) and not c.keywords and all(_simple(x) for x in c.args)) for c, n in zip(calls_, loads_)):
-                only_called = False
-            if any(order[id(n)] < order[id(st)] for n in loads_):
-                only_called = False
+    # a fixed order (never the iteration order of a set): the temporary defined last first, so that a chain `a = f(); b = g(); return a - b`
+    # folds back in evaluation order; repeated while it makes progress
+    first_store = {}
+    for i, n in enumerate(_preorder(fn)):
+        if isinstance(n, ast.Name) and isinstance(n.ctx, ast.Store) and n.id not in first_store:
+            first_store[n.id] = i
+    cand = sorted(cand, key=lambda n: (-first_store.get(n, 0), n))
+    progress = True
+    rounds = 0
+    while progress and rounds < 4:
+        progress = False
+        rounds += 1
+        before_round = done
+        for v in cand:
+            order = {id(n): i for i, n in enumerate(_preorder(fn))}
+            stores = [n for n in ast.walk(fn) if isinstance(n, ast.Name) and n.id == v and isinstance(n.ctx, (ast.Store, ast.Del))]
+            others = [n for n in ast.walk(fn) if (isinstance(n, ast.arg) and n.arg == v) or (isinstance(n, ast.ExceptHandler) and n.name == v)]
+            if len(stores) != 1 or others:
+                continue
+            found = _find_assign(fn, stores[0])
+            if found is None:
+                continue
+            block, idx, st = found
+            if isinstance(st.value, ast.Lambda):
+                # a NEW local lambda that is only ever called: beta-reduce its calls (the lambda reads its free variables when called, which is
+                # where the substituted body now stands)
+                lam = st.value
+                a = lam.args
+                only_called = not (a.vararg or a.kwarg or a.kwonlyargs or a.defaults or a.posonlyargs)
+                params_ = [x.arg for x in a.args]
+                pm_ = {}
+                for n in ast.walk(fn):
+                    for c in ast.iter_child_nodes(n):
+                        pm_[id(c)] = n
+                loads_ = [n for n in ast.walk(fn) if isinstance(n, ast.Name) and n.id == v and isinstance(n.ctx, ast.Load)]
+                calls_ = [pm_.get(id(n)) for n in loads_]
+                if not loads_ or any(not (isinstance(c, ast.Call) and c.func is n and len(c.args) == len(params_) and not c.keywords and all(_simple(x) for x in c.args)) for c, n in zip(calls_, loads_)):
+                    only_called = False
+                if any(order[id(n)] < order[id(st)] for n in loads_):
+                    only_called = False
 
-            if only_called:
-                class B(ast.NodeTransformer):
-                    def visit_Call(self, c):
-                        self.generic_visit(c)
-                        if isinstance(c.func, ast.Name) and c.func.id == v and len(c.args) == len(params_):
-                            return ast.copy_location(_Subst(dict(zip(params_, c.args))).visit(copy.deepcopy(lam.body)), c)
-                        return c
-                for s2 in block[idx + 1:]:
-                    B().visit(s2)
-                del block[idx]
-                ast.fix_missing_locations(fn)
-                done += 1
-                continue
-            # otherwise the lambda is handed on as a value: it is an ordinary (pure) temporary, handled below
-        pos = order[id(st)]
-        loads = [n for n in ast.walk(fn) if isinstance(n, ast.Name) and n.id == v and isinstance(n.ctx, ast.Load)]
-        # the temporary must be a NAME FOR A VALUE: never the handle of an object that is modified through it ...
-        handle = False
-        for n in ast.walk(fn):
-            if isinstance(n, (ast.Subscript, ast.Attribute)) and isinstance(n.ctx, (ast.Store, ast.Del)):
-                root = n.value
-                while isinstance(root, (ast.Attribute, ast.Subscript)):
-                    root = root.value
-                if isinstance(root, ast.Name) and root.id == v:
+                if only_called:
+                    class B(ast.NodeTransformer):
+                        def visit_Call(self, c):
+                            self.generic_visit(c)
+                            if isinstance(c.func, ast.Name) and c.func.id == v and len(c.args) == len(params_):
+                                return ast.copy_location(_Subst(dict(zip(params_, c.args))).visit(copy.deepcopy(lam.body)), c)
+                            return c
+                    for s2 in block[idx + 1:]:
+                        B().visit(s2)
+                    del block[idx]
+                    ast.fix_missing_locations(fn)
+                    done += 1
+                    continue
+                # otherwise the lambda is handed on as a value: it is an ordinary (pure) temporary, handled below
+            pos = order[id(st)]
+            loads = [n for n in ast.walk(fn) if isinstance(n, ast.Name) and n.id == v and isinstance(n.ctx, ast.Load)]
+            # the temporary must be a NAME FOR A VALUE: never the handle of an object that is modified through it ...
+            handle = False
+            for n in ast.walk(fn):
+                if isinstance(n, (ast.Subscript, ast.Attribute)) and isinstance(n.ctx, (ast.Store, ast.Del)):
+                    root = n.value
+                    while isinstance(root, (ast.Attribute, ast.Subscript)):
+                        root = root.value
+                    if isinstance(root, ast.Name) and root.id == v:
+                        handle = True
+                if isinstance(n, ast.Call) and isinstance(n.func, ast.Attribute) and n.func.attr in MUTATORS and isinstance(n.func.value, ast.Name) and n.func.value.id == v:
                     handle = True
-            if isinstance(n, ast.Call) and isinstance(n.func, ast.Attribute) and n.func.attr in MUTATORS and isinstance(n.func.value, ast.Name) and n.func.value.id == v:
-                handle = True
-            if isinstance(n, ast.AugAssign) and isinstance(n.target, ast.Name) and n.target.id == v:
-                handle = True
-        if handle:
-            continue
-        # ... and a value used several times must not be a fresh mutable object (two uses would be two objects)
-        if len(loads) > 1 and any(isinstance(n, (ast.List, ast.Dict, ast.Set, ast.ListComp, ast.DictComp, ast.SetComp, ast.GeneratorExp)) or
-                                  (isinstance(n, ast.Call) and (n.func.id if isinstance(n.func, ast.Name) else getattr(n.func, 'attr', None)) not in IMMUTABLE_RESULT)
-                                  for n in ast.walk(st.value)):
-            continue
-        if not _pure(st.value):
-            # an expression with calls may only move into the very next statement, used once, outside any loop/comprehension/lambda of it
-            nxt = block[idx + 1] if idx + 1 < len(block) else None
-            if nxt is None or len(loads) != 1 or isinstance(nxt, (ast.For, ast.While, ast.If, ast.With, ast.Try, ast.FunctionDef)) or _use_count([nxt], v) != (1, False):
+                if isinstance(n, ast.AugAssign) and isinstance(n.target, ast.Name) and n.target.id == v:
+                    handle = True
+            if handle:
                 continue
-        if not loads or any(order[id(n)] < pos for n in loads):
-            continue
-        # every use must be dominated by the definition: inside the statements that follow it in its own block
-        later = set()
-        for s2 in block[idx + 1:]:
-            later |= {id(n) for n in ast.walk(s2)}
-        if any(id(n) not in later for n in loads):
-            continue
-        # operands must keep their value between the definition and the uses
-        operands = {o.split('\x01')[0] for o in _names_read(st.value)}      # by spelling: split webs are merged again afterwards
-        last = max(order[id(n)] for n in loads)
-        bad = False
-        inside = {id(n) for n in ast.walk(st)}
-        # the targets of an assignment are bound AFTER its value (which holds the last use) has been evaluated
-        for s2 in block[idx + 1:]:
-            if isinstance(s2, ast.Assign) and any(id(n) == id(l) for l in loads for n in ast.walk(s2.value)) and max(order[id(n)] for n in ast.walk(s2) if id(n) in order) >= last:
-                for t in s2.targets:
-                    inside |= {id(n) for n in ast.walk(t)}
-        for n in ast.walk(fn):
-            if id(n) in inside:
-                continue            # the comprehension variables of the moved expression itself
-            if isinstance(n, ast.Name) and n.id.split('\x01')[0] in operands and isinstance(n.ctx, (ast.Store, ast.Del)):
-                if pos < order[id(n)] <= last or any(lp in _enclosing_loops(fn, n) for lp in _loops_between(fn, st, loads)):
-                    bad = True
-            if isinstance(n, ast.Call) and isinstance(n.func, ast.Attribute) and n.func.attr in MUTATORS and pos < order[id(n)] <= last:
-                root = n.func.value
-                while isinstance(root, (ast.Attribute, ast.Subscript)):
-                    root = root.value
-                if isinstance(root, ast.Name) and root.id.split('\x01')[0] in operands:
-                    bad = True
-            if isinstance(n, (ast.Subscript, ast.Attribute)) and isinstance(n.ctx, (ast.Store, ast.Del)) and pos < order[id(n)] <= last:
-                root = n.value
-                while isinstance(root, (ast.Attribute, ast.Subscript)):
-                    root = root.value
-                if isinstance(root, ast.Name) and root.id.split('\x01')[0] in operands:
-                    bad = True
-        if bad:
-            continue
-        sub = _Subst({v: st.value})
-        for s2 in block[idx + 1:]:
-            sub.visit(s2)
-        del block[idx]
-        done += 1
+            # ... and a value used several times must not be a fresh mutable object (two uses would be two objects)
+            if len(loads) > 1 and any(isinstance(n, (ast.List, ast.Dict, ast.Set, ast.ListComp, ast.DictComp, ast.SetComp, ast.GeneratorExp)) or
+                                      (isinstance(n, ast.Call) and (n.func.id if isinstance(n.func, ast.Name) else getattr(n.func, 'attr', None)) not in IMMUTABLE_RESULT)
+                                      for n in ast.walk(st.value)):
+                continue
+            if not _pure(st.value):
+                # an expression with calls may only move into the very next statement, used once, outside any loop/comprehension/lambda of it
+                nxt = block[idx + 1] if idx + 1 < len(block) else None
+                if nxt is None or len(loads) != 1 or isinstance(nxt, (ast.For, ast.While, ast.If, ast.With, ast.Try, ast.FunctionDef)) or _use_count([nxt], v) != (1, False):
+                    continue
+            if not loads or any(order[id(n)] < pos for n in loads):
+                continue
+            # every use must be dominated by the definition: inside the statements that follow it in its own block
+            later = set()
+            for s2 in block[idx + 1:]:
+                later |= {id(n) for n in ast.walk(s2)}
+            if any(id(n) not in later for n in loads):
+                continue
+            # operands must keep their value between the definition and the uses
+            operands = {o.split('\x01')[0] for o in _names_read(st.value)}      # by spelling: split webs are merged again afterwards
+            last = max(order[id(n)] for n in loads)
+            bad = False
+            inside = {id(n) for n in ast.walk(st)}
+            # the targets of an assignment are bound AFTER its value (which holds the last use) has been evaluated
+            for s2 in block[idx + 1:]:
+                if isinstance(s2, ast.Assign) and any(id(n) == id(l) for l in loads for n in ast.walk(s2.value)) and max(order[id(n)] for n in ast.walk(s2) if id(n) in order) >= last:
+                    for t in s2.targets:
+                        inside |= {id(n) for n in ast.walk(t)}
+            for n in ast.walk(fn):
+                if id(n) in inside:
+                    continue            # the comprehension variables of the moved expression itself
+                if isinstance(n, ast.Name) and n.id.split('\x01')[0] in operands and isinstance(n.ctx, (ast.Store, ast.Del)):
+                    if pos < order[id(n)] <= last or any(lp in _enclosing_loops(fn, n) for lp in _loops_between(fn, st, loads)):
+                        bad = True
+                if isinstance(n, ast.Call) and isinstance(n.func, ast.Attribute) and n.func.attr in MUTATORS and pos < order[id(n)] <= last:
+                    root = n.func.value
+                    while isinstance(root, (ast.Attribute, ast.Subscript)):
+                        root = root.value
+                    if isinstance(root, ast.Name) and root.id.split('\x01')[0] in operands:
+                        bad = True
+                if isinstance(n, (ast.Subscript, ast.Attribute)) and isinstance(n.ctx, (ast.Store, ast.Del)) and pos < order[id(n)] <= last:
+                    root = n.value
+                    while isinstance(root, (ast.Attribute, ast.Subscript)):
+                        root = root.value
+                    if isinstance(root, ast.Name) and root.id.split('\x01')[0] in operands:
+                        bad = True
+            if bad:
+                continue
+            sub = _Subst({v: st.value})
+            for s2 in block[idx + 1:]:
+                sub.visit(s2)
+            del block[idx]
+            done += 1
+        progress = done > before_round
     if done and stats is not None:
         stats.append((key, 'inlined %d new temporaries' % done))
     return done
